@@ -99,7 +99,7 @@ def oracle(chk, case, specs, obs, failing, oserr, builds_on=True):
 
 
 def run(chk):
-    chk.prove(models=["Model/Machine"])
+    chk.prove(models=["Model/Machine", "Model/SetupOnly"])
     rng = chk.rng
     exprs = []
     n = 2500 if chk.tier == "quick" else 12000
@@ -178,7 +178,20 @@ def run(chk):
             chk.count("failing_builds", len(failing))
         finally:
             shutil.rmtree(d, ignore_errors=True)
-    setup_only_part(chk)
+    sexprs, sobs = setup_only_part(chk)
+    try:
+        sres = core.coq_eval(["Model.SetupOnly"], sexprs, chk.scratch, chunk=200, jobs=4)
+        ns = 0
+        for (case, kept), m in zip(sobs, sres):
+            if sorted(m) != kept:
+                ns += 1
+                if ns <= 3:
+                    chk.obligation_broken("correspondence", "Model.SetupOnly.select_setup vs Configurator.get_runs (--setup-only)",
+                                          "case %s\n impl keeps (positions in visiting order) %s\n model %s" % (json.dumps(case, default=str)[:1200], kept, sorted(m)))
+        chk.count("setup_only_selections_compared", len(sres))
+        chk.count("setup_only_disagreements", ns)
+    except core.BuildError as exc:
+        chk.obligation_broken("correspondence", "model evaluation (Model.SetupOnly)", exc)
     parallel_part(chk)
     try:
         res = core.coq_eval(IMPORTS, [e[4] for e in exprs], chk.scratch, chunk=40, jobs=16)
@@ -205,15 +218,37 @@ def run(chk):
 
 
 def setup_only_part(chk):
+    """returns (expressions, observations) for Model.SetupOnly.select_setup vs Configurator.get_runs"""
+    from rebench.model.run_id import RunId
     rng = chk.rng
-    n = 12 if chk.tier == "quick" else 600
+    n = 40 if chk.tier == "quick" else 600
+    sexprs, sobs = [], []
+    o_bc = RunId.build_commands
     for i in range(n):
         d = session.scratch_dir()
         try:
             specs = gen_specs(rng)
             ids = mh.build_ids(specs)
             case = dict(specs=[s.describe() for s in specs], argv=["--setup-only"])
-            obs = mh.run_impl(specs, os.path.join(d, "s.data"), "batch", ["--setup-only"], [])
+            visited = []
+
+            def bc_hook(self):
+                res = o_bc(self)
+                visited.append(self.benchmark.name)
+                return res
+            RunId.build_commands = bc_hook          # observation only: the order in which get_runs visits the set
+            try:
+                obs = mh.run_impl(specs, os.path.join(d, "s.data"), "batch", ["--setup-only"], [])
+            finally:
+                RunId.build_commands = o_bc
+            # the first len(specs) calls are get_runs' loop over all runs
+            by = {s.name: s for s in specs}
+            order = visited[:len(specs)]
+            if sorted(order) == sorted(by) and not isinstance(obs.result, str):
+                term = core.coq_list(["(%s, %s)" % (core.coq_nat(k), core.coq_list([core.coq_nat(ids[b]) for b in needs(by[nme])], "nat"))
+                                      for k, nme in enumerate(order)])
+                sexprs.append("sx_select %s" % term)
+                sobs.append((dict(case, visited=order), sorted(order.index(nme) for nme in obs.order)))
             if isinstance(obs.result, str):
                 chk.violation("C13 --setup-only ends without an exception", case, "no exception", "%s %r" % (obs.result, obs.ses.exc))
                 continue
@@ -225,6 +260,7 @@ def setup_only_part(chk):
         finally:
             shutil.rmtree(d, ignore_errors=True)
     chk.count("setup_only_sessions", n)
+    return sexprs, sobs
 
 
 def parallel_part(chk):
